@@ -289,9 +289,10 @@ class AgentWorld(World):
         self.apply(('run', name))
         return True
 
-    def run_policy(self, order, max_steps=3000, until=None):
+    def run_policy(self, order, max_steps=3000, until=None, rotate=True):
         '''Fair schedule: repeatedly the first process of `order` (rotated after each step)
-        that has a ready callback.'''
+        that has a ready callback.  rotate=False: strict priorities instead - a process runs only
+        when none before it in `order` has anything to do (the last one is a slow process).'''
         steps = 0
         order = list(order)
         while steps < max_steps:
@@ -299,7 +300,8 @@ class AgentWorld(World):
                 return steps
             for (k, name) in enumerate(order):
                 if self.step(name):
-                    order = order[k + 1:] + order[:k + 1]
+                    if rotate:
+                        order = order[k + 1:] + order[:k + 1]
                     steps += 1
                     break
             else:
